@@ -24,35 +24,47 @@ pub fn eval(p: &Prog, sols: Option<&Vec<Vec<T>>>) -> (String, Option<String>, bo
             &own
         }
     };
-    let mut fail = None;
+    let fail = check_answers(p.nq, answers, sols);
+    let nt = answers.iter().any(|a| !a.constraints.is_empty()) || answers.len() > 1;
+    (line, fail, nt, fuel)
+}
+
+/// the two inclusions between the ground instances of the answers and the brute-force ground solutions
+pub fn check_answers(nq: usize, answers: &[Ans], sols: &[Vec<T>]) -> Option<String> {
     // completeness: every ground solution over the universe is an instance of some answer
     for s in sols {
         if !answers.iter().any(|a| instance_of(a, s)) {
-            fail = Some(format!("ground solution {} is not an instance of any answer", show_tuple(s)));
-            break;
+            return Some(format!("ground solution {} is not an instance of any answer", show_tuple(s)));
         }
     }
     // soundness: every universe tuple that is an instance of an answer is a ground solution
-    if fail.is_none() {
-        let u = universe8();
-        let total = u.len().pow(p.nq as u32);
-        for code in 0..total {
-            let mut k = code;
-            let tuple: Vec<T> = (0..p.nq)
-                .map(|_| {
-                    let t = u[k % u.len()].clone();
-                    k /= u.len();
-                    t
-                })
-                .collect();
-            if answers.iter().any(|a| instance_of(a, &tuple)) && !sols.contains(&tuple) {
-                fail = Some(format!("answer instance {} is not a solution of the program", show_tuple(&tuple)));
-                break;
-            }
+    let u = universe8();
+    let total = u.len().pow(nq as u32);
+    for code in 0..total {
+        let mut k = code;
+        let tuple: Vec<T> = (0..nq)
+            .map(|_| {
+                let t = u[k % u.len()].clone();
+                k /= u.len();
+                t
+            })
+            .collect();
+        if answers.iter().any(|a| instance_of(a, &tuple)) && !sols.contains(&tuple) {
+            return Some(format!("answer instance {} is not a solution of the program", show_tuple(&tuple)));
         }
     }
-    let nt = answers.iter().any(|a| !a.constraints.is_empty()) || answers.len() > 1;
-    (line, fail, nt, fuel)
+    None
+}
+
+/// is the program built from ==, !=, conjunction, conde/disj and fresh only (the fragment `tree::solutions` decides)?
+pub fn pure_tree(gs: &[PG]) -> bool {
+    gs.iter().all(|g| match g {
+        PG::Eq(..) | PG::Neq(..) | PG::Succ | PG::Fail => true,
+        PG::Conj(v) | PG::Disj(v) => pure_tree(v),
+        PG::Conde(cs) => cs.iter().all(|c| pure_tree(c)),
+        PG::Fresh(b) => pure_tree(std::slice::from_ref(b)),
+        _ => false,
+    })
 }
 
 fn corpus() -> Vec<&'static str> {
